@@ -299,6 +299,7 @@ fn after_step(pool: &Pool<Mgr>, tasks: &[STask]) {
 pub fn run_seq(sc: &SeqScenario) -> Outcome {
     sched::begin();
     init_world(sc.cfg.clone(), &sc.base);
+    w(|w| w.task_level = true);
     // a paused clock that nobody advances: configured timeouts never expire
     let rt = if sc.timeouts { Some(tokio::runtime::Builder::new_current_thread().enable_time().start_paused(true).build().expect("runtime")) } else { None };
     let _enter = rt.as_ref().map(|r| r.enter());
@@ -457,7 +458,7 @@ pub fn run_seq(sc: &SeqScenario) -> Outcome {
                 op_release(who);
             }),
             SOp::Take(who) => guarded_as(who, || {
-                op_take(who);
+                op_take(who, Some(&pool));
             }),
             SOp::Retain => guarded_as(900, || op_retain(900, &pool)),
             SOp::Resize(n) => {
